@@ -317,7 +317,7 @@ class Interp:
             out.append(r.a)
         st = np.empty((len(out),) + a.shape[1:], dtype=object)
         for i, r in enumerate(out):
-            st[i] = r
+            st[i] = r if r.shape != () else r[()]
         return Arr(x.st, np.moveaxis(st, 0, axis))
 
     def inverse_perm(self, idx_elems, st):
@@ -386,7 +386,7 @@ class Interp:
             r = rows[n - 1]
             for i in range(n - 2, -1, -1):
                 r = self.ite_val(sel[p][i], rows[i], r)
-            out[p] = r.a
+            out[p] = r.a if r.a.shape != () else r.a[()]
         return Arr(x.st, out)
 
     # ------------------------------------------------------------ randomness
